@@ -19,7 +19,7 @@ def harnesses(tier):
                 crit_job=False), o, required_notes=req + ("c08_queued",)),
             scenario_harness("flat-lat-sd", Profile(
                 templates=("F2",), timeout="always", lat="free", sd="free", sdt="free", perm="id", top="free",
-                top_crit="free", crit_job=False), o, required_notes=req),
+                top_crit="free", crit_job=False), o + [O.c13_shutdown], required_notes=req),
             scenario_harness("nested-own-clock", Profile(
                 templates=("N12",), timeout="free", never="free", perm="id", crit_sched="free", crit_job=False),
                 o, required_notes=req),
